@@ -25,6 +25,10 @@ def make_hooks():
     def sf_le(p, q):
         return p <= q
 
+    @symbolic_function
+    def sf_half(n):
+        return n // 2
+
     preds = {"Bigger": Bigger}
     fns = {"sf_le": sf_le}
     return dict(
@@ -32,6 +36,7 @@ def make_hooks():
         symfn=lambda name, kw: kw["p"] <= kw["q"],
         build_pred=lambda name, args: preds[name](*args),
         build_symfn=lambda name, kw: fns[name](**kw),
+        build_symterm=lambda name, arg: sf_half(arg),
     )
 
 
